@@ -29,7 +29,8 @@ RULE = (
     "artifact) and for every non-empty subset (--match-test), each configuration twice in one process (second time without "
     "resetting halmos' singletons), plus invariant scenarios from the C15 templates in every order of their invariants; per-test "
     "normalised results (verdict, path counts, model variable names with the uid stripped, values where the guard pins them, "
-    "warnings) must be equal; (2) the same contracts with halmos.utils.uid (and every module-level alias) replaced by another "
+    "warnings) must be equal; (1b) three tests of identical shape `require(v<10); assert(v*v != c)` (c a non-square: valid, c a "
+    "square: violable) under --cache-solver (--solver-threads 1 and default) in every order, twice, against each test alone; (2) the same contracts with halmos.utils.uid (and every module-level alias) replaced by another "
     "injective stream and by a constant; (3) ~300 branching programs from vlib/proggen.py run by the real SEVM with every "
     "worklist state deep-fingerprinted at push and at pop. A case is distinct by (contract seed, configuration) / program."
 )
@@ -196,6 +197,63 @@ def check_invariant_orders(ctx, seed, tmpl, depth):
         ctx.count("inv-orders:configurations")
         compare(ctx, "invariant-alone-vs-after-others", base, normed(run), f"{scn.name} seed {seed} alone {scn.invs[i].name}",
                 dict(replay, alone=i))
+
+
+# ------------------------------------------------------------------------------------------------ (1b) --cache-solver across tests
+
+
+def sq_test(name, var, bad, lim=10):
+    """check_<name>(uint256 v): require(v < lim); assert(v * v != bad)  — the product is symbolic x symbolic (refinement)"""
+    from vlib import asm
+    from vlib.artifacts import Fn
+
+    v = asm.calldata_arg(0)
+    body = e2e.require(v + [("push", lim), "SWAP1", "LT"]) + asm.if_then(asm.eq_const(v + v + ["MUL"], bad), asm.panic(1))
+    return Fn(f"check_{name}(uint256 {var})", body)
+
+
+def check_cache_orders(ctx, seed, threads):
+    """tests of identical shape, some valid (their assertion query is unsat and leaves an unsat core under --cache-solver), some
+    violable; every order, and each test alone: the verdict of a test must be its alone-verdict"""
+    from vlib.artifacts import TestContract
+
+    rng = random.Random(seed)
+    nonsq = rng.sample([7, 2, 3, 5, 8, 10, 50], 2)
+    sq = rng.choice([9, 4, 16, 25, 49])
+    names = ["a", "b", "c"]
+    rng.shuffle(names)
+    tests = [sq_test(names[0], "x", nonsq[0]), sq_test(names[1], "y", sq), sq_test(names[2], "z", nonsq[1])]
+    expect = {f"check_{names[0]}(uint256)": 0, f"check_{names[1]}(uint256)": 1, f"check_{names[2]}(uint256)": 0}
+    cfg = {"cache_solver": True}
+    if threads:
+        cfg["solver_threads"] = threads
+    replay = {"kind": "cache-orders", "seed": seed, "threads": threads}
+    alone = {}
+    for t in tests:
+        run = run_cfg(TestContract("CacheT", [t]), [], **cfg)
+        r = run.results[0]
+        alone[r.name] = r.exitcode
+        ctx.count(f"cache-orders:alone-verdict:{r.exitcode}")
+        if r.exitcode not in (expect[r.name], 2):
+            # a wrong verdict *within one test* (not an isolation matter): report separately
+            ctx.violation(f"cache-solver-alone-verdict-wrong|expected:{expect[r.name]}|got:{r.exitcode}",
+                          f"CacheT.{r.name} alone with {cfg}: exit code {r.exitcode}, expected {expect[r.name]}", replay)
+    for order in itertools.permutations(range(3)):
+        for rep in range(2):
+            with (no_singleton_reset() if rep else contextlib.nullcontext()):
+                run = run_cfg(TestContract("CacheT", [tests[i] for i in order]), [], **cfg)
+            ctx.case(f"cache-order|{seed}|{threads}|{order}|{rep}")
+            ctx.count("cache-orders:configurations")
+            for r in run.results:
+                if 2 in (r.exitcode, alone[r.name]):
+                    ctx.count("compare:skipped-timeout")
+                    continue
+                if r.exitcode != alone[r.name]:
+                    before = [x.name for x in run.results[:[x.name for x in run.results].index(r.name)]]
+                    ctx.violation(
+                        f"cache-solver:verdict-depends-on-earlier-tests|{alone[r.name]}->{r.exitcode}",
+                        f"CacheT.{r.name} with {cfg}: exit code {alone[r.name]} alone but {r.exitcode} after {before} "
+                        f"(order {[tests[i].sig for i in order]}, repetition {rep})", dict(replay, order=list(order), rep=rep))
 
 
 # ------------------------------------------------------------------------------------------------ (2) uid streams
@@ -507,6 +565,8 @@ def correspond(ctx):
         inv += [(ctx.rng.randrange(1 << 40), t, 2) for t in range(len(c15.TEMPLATES))]
     for seed, t, d in inv[: ctx.scale(2, 40)]:
         check_invariant_orders(ctx, seed, t, d)
+    for k in range(ctx.scale(2, 12)):
+        check_cache_orders(ctx, ctx.rng.randrange(1 << 40), 1 if k % 2 == 0 else None)
     check_depth_warning(ctx)
     check_siblings(ctx, ctx.scale(300, 3000))
 
@@ -518,6 +578,8 @@ def replay(ctx, data) -> bool:
         check_uid(ctx, gen, base, d["seed"])
     elif d.get("kind") == "inv-orders":
         check_invariant_orders(ctx, d["seed"], d["tmpl"], d["depth"])
+    elif d.get("kind") == "cache-orders":
+        check_cache_orders(ctx, d["seed"], d.get("threads"))
     elif d.get("kind") == "depth-warning":
         check_depth_warning(ctx)
     elif d.get("kind") == "sibling":
